@@ -188,9 +188,12 @@ def make_harness(kind, n_ops, max_faulty):
                 def do_write(data):
                     root.fire(write(sock, data), ep.channel)
 
+                nclose = [0]
+
                 def do_close():
                     # close of this connection, or of the whole server (no argument): both must wait for the buffer
-                    if g.flag('serverwide_close'):
+                    nclose[0] += 1
+                    if g.flag('serverwide_close%d' % nclose[0]):
                         root.fire(close(), ep.channel)
                     else:
                         root.fire(close(sock), ep.channel)
@@ -265,6 +268,7 @@ def make_harness(kind, n_ops, max_faulty):
         history = []
         n_payload = 0
         close_requested = False
+        closes = 0
 
         def check_prefix(where):
             if bytes(script.accepted) != bytes(written[:len(script.accepted)]):
@@ -277,6 +281,8 @@ def make_harness(kind, n_ops, max_faulty):
                 ops.append('write')
             if not close_requested:
                 ops.append('close')
+            elif closes < 2 and not script.closed:
+                ops.append('close-again')     # a second close request while the first one is still waiting for the buffer
             if poller.isWriting(target) and not script.closed:
                 ops.append('writable')
             if kind in ('server', 'client') and not close_requested and not script.closed:
@@ -297,7 +303,11 @@ def make_harness(kind, n_ops, max_faulty):
                 written_before_close = len(written)
                 target.eof = True
                 root.fire(PL._read(target), ep.channel)
+            elif op == 'close-again':
+                closes += 1
+                do_close()
             elif op == 'close':
+                closes += 1
                 close_requested = True
                 written_before_close = len(written)
                 do_close()
